@@ -277,10 +277,70 @@ COMBINATORS = {
     "core::option::Option::and_then": ("core::option::Option", "Some", "None", "and_then"),
     "core::option::Option::map": ("core::option::Option", "Some", "None", "map"),
     "core::option::Option::filter": ("core::option::Option", "Some", "None", "filter"),
+    "core::option::Option::map_or": ("core::option::Option", "Some", "None", "map_or"),
+    "core::result::Result::map_or": ("core::result::Result", "Ok", "Err", "map_or"),
+    "core::option::Option::is_none_or": ("core::option::Option", "Some", "None", "pred_or_true"),
 }
 
 
-def desugar_combinators(f, fns, rounds=3):
+LAZY = {
+    # callee -> (kind, adt of the receiver, payload variant, other variant)
+    "core::bool::then": ("then", None, None, None),
+    "core::option::Option::unwrap_or_else": ("unwrap_or_else", "core::option::Option", "Some", "None"),
+    "core::option::Option::ok_or_else": ("ok_or_else", "core::option::Option", "Some", "None"),
+    "core::option::Option::or_else": ("or_else", "core::option::Option", "Some", "None"),
+}
+
+
+def _desugar_lazy(f, bi, t, lz, x, c, clo, cpath):
+    """`c.then(|| v)` = if c { Some(v) } else { None };  `o.unwrap_or_else(|| d)` = match o { Some(v) => v, None => d };
+    `o.ok_or_else(|| e)` = match o { Some(v) => Ok(v), None => Err(e) };  `o.or_else(|| p)` = match o { Some(v) => Some(v), None => p }
+    -- the closure's body spliced into the arm that runs it."""
+    kind, adt, pv, ov = lz
+    body = f["body"]
+    B, L = body["blocks"], body["locals"]
+    s_ = t["s"]
+    dest, target = t["dest"], t["target"]
+    OPT, RES = "core::option::Option", "core::result::Result"
+    r_loc = len(L)
+    L.append(copy.deepcopy(clo["body"]["locals"][0]))
+    nb = len(B)
+    b_call, b_plain, b_wrap, b_unreach = nb, nb + 1, nb + 2, nb + 3
+    # the arm that runs the closure
+    direct = kind in ("unwrap_or_else", "or_else")
+    cterm = {"k": "call", "func": {"const": {"ty": "closure", "fn": {"path": cpath, "local": True, "orig": cpath}}},
+             "args": [{"move": {"l": c["l"], "p": []}}], "dest": copy.deepcopy(dest) if direct else {"l": r_loc, "p": []},
+             "target": target if direct else b_wrap, "unwind": t.get("unwind"), "s": s_}
+    B.append({"cleanup": False, "stmts": [], "term": cterm})
+    # the arm that does not
+    if kind == "then":
+        plain_rv = {"agg": "adt", "adt": OPT, "variant": "None", "fields": [], "ops": []}
+        wrap_rv = {"agg": "adt", "adt": OPT, "variant": "Some", "fields": ["0"], "ops": [{"move": {"l": r_loc, "p": []}}]}
+    else:
+        pdisc = ENUM_DISCR[(adt, pv)]
+        payload = {"move": {"l": x["l"], "p": [{"downcast": pv, "vi": pdisc}, {"f": 0, "n": "0", "adt": adt, "v": pv}]}}
+        if kind == "unwrap_or_else":
+            plain_rv = {"use": payload}
+        elif kind == "or_else":
+            plain_rv = {"agg": "adt", "adt": OPT, "variant": "Some", "fields": ["0"], "ops": [payload]}
+        else:
+            plain_rv = {"agg": "adt", "adt": RES, "variant": "Ok", "fields": ["0"], "ops": [payload]}
+        wrap_rv = {"agg": "adt", "adt": RES, "variant": "Err", "fields": ["0"], "ops": [{"move": {"l": r_loc, "p": []}}]}
+    B.append({"cleanup": False, "stmts": [{"k": "assign", "place": copy.deepcopy(dest), "rv": plain_rv, "s": s_}], "term": {"k": "goto", "target": target, "s": s_}})
+    B.append({"cleanup": False, "stmts": [{"k": "assign", "place": copy.deepcopy(dest), "rv": wrap_rv, "s": s_}], "term": {"k": "goto", "target": target, "s": s_}})
+    B.append({"cleanup": False, "stmts": [], "term": {"k": "unreachable", "s": s_}})
+    if kind == "then":
+        B[bi]["term"] = {"k": "switch", "op": {"copy": {"l": x["l"], "p": []}}, "ty": "bool", "targets": [[0, b_plain]], "otherwise": b_call, "s": s_}
+    else:
+        d_loc = len(L)
+        L.append({"ty": "isize", "adt": None})
+        B[bi]["stmts"].append({"k": "assign", "place": {"l": d_loc, "p": []}, "rv": {"discr": {"l": x["l"], "p": []}, "adt": adt}, "s": s_})
+        B[bi]["term"] = {"k": "switch", "op": {"move": {"l": d_loc, "p": []}}, "ty": "isize",
+                         "targets": [[ENUM_DISCR[(adt, ov)], b_call], [ENUM_DISCR[(adt, pv)], b_plain]], "otherwise": b_unreach, "s": s_}
+    _splice(f, b_call, clo)
+
+
+def desugar_combinators(f, fns, rounds=6):
     """`o.is_some_and(|v| p(v))`, `o.map(|v| g(v))`, `o.and_then(|v| g(v))`, `r.is_ok_and(..)` with a closure literal
     built in the same function are read as the `match` they abbreviate, the closure's body spliced into the arm:
 
@@ -331,11 +391,25 @@ def desugar_combinators(f, fns, rounds=3):
                         todo = "again"
                         break
                 continue
+            lz = LAZY.get(sp_)
+            if lz is not None and len(t["args"]) == 2:
+                x = t["args"][0].get("move") or t["args"][0].get("copy")
+                c = t["args"][1].get("move") or t["args"][1].get("copy")
+                if x is None or c is None or x["p"] or c["p"] or ndefs.get(c["l"]) != 1 or c["l"] not in cdef or cdef[c["l"]] not in fns:
+                    continue
+                clo = fns[cdef[c["l"]]]
+                if clo["body"]["arg_count"] != 1 or clo["body"]["locals"][1]["ty"].startswith("&"):
+                    continue
+                _desugar_lazy(f, bi, t, lz, x, c, clo, cdef[c["l"]])
+                SPLICED_CLOSURES.add(cdef[c["l"]])
+                done += 1
+                todo = "again"
+                break
             spec = COMBINATORS.get(sp_)
-            if spec is None or len(t["args"]) != 2:
+            if spec is None or len(t["args"]) != (3 if spec[3] == "map_or" else 2):
                 continue
             x = t["args"][0].get("move") or t["args"][0].get("copy")
-            c = t["args"][1].get("move") or t["args"][1].get("copy")
+            c = t["args"][-1].get("move") or t["args"][-1].get("copy")
             if x is None or c is None or x["p"] or c["p"] or ndefs.get(c["l"]) != 1 or c["l"] not in cdef or cdef[c["l"]] not in fns:
                 continue
             clo = fns[cdef[c["l"]]]
@@ -395,6 +469,10 @@ def desugar_combinators(f, fns, rounds=3):
         # other arm
         if kind == "pred":
             other_rv = {"use": {"const": {"ty": "bool", "val": {"int": 0}}}}
+        elif kind == "pred_or_true":
+            other_rv = {"use": {"const": {"ty": "bool", "val": {"int": 1}}}}
+        elif kind == "map_or":
+            other_rv = {"use": copy.deepcopy(t["args"][1])}
         else:
             other_rv = {"agg": "adt", "adt": adt, "variant": ov, "fields": [], "ops": []}
         B.append({"cleanup": False, "stmts": [{"k": "assign", "place": copy.deepcopy(dest), "rv": other_rv, "s": s_}], "term": {"k": "goto", "target": target, "s": s_}})
@@ -570,13 +648,36 @@ def split_selector_joins(f, rounds=6, max_stmts=16, max_new=200):
     B = body["blocks"]
     made = 0
     for _ in range(rounds):
+        # jump threading: a `goto` to an empty block that only jumps on goes where that block goes
+        for _t in range(4):
+            ch = False
+            for b in B:
+                t = b["term"]
+                if t["k"] == "goto":
+                    x = B[t["target"]]
+                    if not x["stmts"] and x["term"]["k"] == "goto" and x["term"]["target"] != t["target"] and not x.get("cleanup") and b["stmts"]:
+                        t["target"] = x["term"]["target"]
+                        ch = True
+            if not ch:
+                break
+        live, work_ = set(), [0]
+        while work_:
+            x_ = work_.pop()
+            if x_ in live:
+                continue
+            live.add(x_)
+            work_ += _succ(B[x_]["term"])
         preds = {}
         for bi, b in enumerate(B):
+            if bi not in live:
+                continue
             t = b["term"]
             for tg in _succ(t):
                 preds.setdefault(tg, []).append((bi, t["k"]))
         ndefs = {}
-        for b in B:
+        for bi, b in enumerate(B):
+            if bi not in live:
+                continue
             for st in b["stmts"]:
                 if st["k"] == "assign":
                     ndefs[st["place"]["l"]] = ndefs.get(st["place"]["l"], 0) + 1
@@ -630,15 +731,77 @@ def split_selector_joins(f, rounds=6, max_stmts=16, max_new=200):
             if loop:
                 continue
             todo = (J, [p for p, _ in ps])
+            L_todo = L
             break
         if todo is None or made + len(todo[1]) > max_new:
             break
         J, ps = todo
+        copies = [(ps[0], J)]
         for p in ps[1:]:
             B.append(copy.deepcopy(B[J]))
             B[p]["term"]["target"] = len(B) - 1
+            copies.append((p, len(B) - 1))
             made += 1
+        # each copy has a single predecessor: it continues that block (so that the one definition of L it sees, and a
+        # `match` on it, sit in one straight line), and a switch decided by that line is folded
+        for p, jc in copies:
+            if B[p]["term"].get("k") == "goto" and B[p]["term"].get("target") == jc and jc != p:
+                B[p]["stmts"] = B[p]["stmts"] + B[jc]["stmts"]
+                B[p]["term"] = B[jc]["term"]
+                B[jc] = {"cleanup": False, "stmts": [], "term": {"k": "unreachable", "s": B[jc]["term"]["s"]}}
+                _fold_block(B[p])
     return made
+
+
+def _fold_block(blk):
+    """constant propagation inside one basic block: `X = Variant(..)`, `Y = move X`, `d = discriminant(Y)`,
+    `switchInt(d)` -- the switch becomes a goto. Returns True if it folded."""
+    variant, kint = {}, {}
+    for x in blk["stmts"]:
+        if x["k"] != "assign":
+            continue
+        pl, rv = x["place"], x["rv"]
+        if "ref" in rv and rv.get("mut"):
+            variant.pop(rv["ref"]["l"], None)
+            kint.pop(rv["ref"]["l"], None)
+        if "rawptr" in rv:
+            variant.pop(rv["rawptr"]["l"], None)
+            kint.pop(rv["rawptr"]["l"], None)
+        if pl["p"]:
+            variant.pop(pl["l"], None)
+            kint.pop(pl["l"], None)
+            continue
+        l = pl["l"]
+        variant.pop(l, None)
+        kint.pop(l, None)
+        if _is_enum_agg(rv):
+            variant[l] = ENUM_DISCR[(rv["adt"], rv["variant"])]
+        elif "use" in rv:
+            u = rv["use"]
+            if "const" in u and isinstance(u["const"].get("val"), dict) and "int" in u["const"]["val"]:
+                kint[l] = u["const"]["val"]["int"]
+            else:
+                src = u.get("move") or u.get("copy")
+                if src is not None and not src["p"]:
+                    if src["l"] in variant:
+                        variant[l] = variant[src["l"]]
+                    if src["l"] in kint:
+                        kint[l] = kint[src["l"]]
+        elif "discr" in rv and not rv["discr"]["p"] and rv["discr"]["l"] in variant:
+            kint[l] = variant[rv["discr"]["l"]]
+    t = blk["term"]
+    if t["k"] != "switch":
+        return False
+    op = t["op"].get("copy") or t["op"].get("move")
+    if op is None or op["p"] or op["l"] not in kint:
+        return False
+    known = kint[op["l"]]
+    tgt = t["otherwise"]
+    for tv, tg in t["targets"]:
+        if tv == known:
+            tgt = tg
+    blk["term"] = {"k": "goto", "target": tgt, "s": t["s"]}
+    return True
 
 
 def fn_renames(js):
